@@ -94,6 +94,7 @@ def plan(tier: str) -> list[dict]:
         {"stratum": "crash-ppr-worker", "runs": 96 if q else 8000, "params": {"victim": "w"}, "chunk": 6 if q else 200},
         {"stratum": "crash-recovery-task", "runs": 64 if q else 6000, "params": {"victim": "recovery"}, "chunk": 4 if q else 150},
         {"stratum": "fault-free", "runs": 32 if q else 2000, "params": {"victim": None}, "chunk": 4 if q else 100},
+        {"stratum": "fault-free-ppr", "runs": 48 if q else 3000, "params": {"victim": None, "ppr": True}, "chunk": 4 if q else 100},
         {"stratum": "fault-free-stalled-worker", "runs": 80 if q else 4000, "params": {"victim": None, "stalled": True}, "chunk": 4 if q else 100},
     ]
 
@@ -128,6 +129,10 @@ def run(seed: int, params: dict, replay: dict | None = None) -> dict:
         # that body; recovery is made busy without any other fault by limits below normal latencies
         kind = ["recover-pending", "recover-running"][idx % 2]
         K = 1 + (idx // 2) % 40
+    elif params.get("ppr"):
+        # nothing dies; r1 is a PersistentProcessRunner with two worker processes (the invariant must hold without any fault too)
+        kind = rng.choice(["flat", "retry", "tree", "keyed", "keyed"])
+        K = 0
     elif params.get("stalled"):
         # nothing dies: one live runner is merely slow to start what it claimed, so the pending-recovery
         # service races with live owners (the invariant must hold at every step without any crash too)
@@ -163,7 +168,7 @@ def run(seed: int, params: dict, replay: dict | None = None) -> dict:
         n_runners = 3
         conf.update({"max_pending_seconds": rng.choice([0.3, 0.5]), "max_threads": rng.choice([2, 3, 4])})
     extra_kw: dict[str, Any] = {}
-    if victim == "w":
+    if victim == "w" or params.get("ppr"):
         # the workers poll without pause: a statement costs 2 virtual ms here, so a virtual minute stays affordable
         extra_kw = {"ppr": {"r1": 2}, "delta": 2e-3}
     with Deployment(seed, "sqlite", n_runners, clients=["c", "z"], services=True, policy=policy, policy_arg=parg, schedule=schedule, max_steps=900_000, max_time=330.0, conf=conf, **extra_kw) as d:
@@ -277,9 +282,16 @@ def run(seed: int, params: dict, replay: dict | None = None) -> dict:
                             sim.sleep(0.4)
                 elif kind == "keyed":
                     t = d.task("c", "keyed")
-                    for j in range(n_jobs + 1):
-                        inv = t(j % 2, j, 0.05)
-                        accepted.append(str(inv.invocation_id))
+                    if victim == "w" or params.get("ppr"):
+                        # more keys, uneven work: a poll then meets a blocked invocation followed by a runnable one
+                        rk = random.Random(f"{seed}:c03:keyed")
+                        for j in range(rk.randint(6, 9)):
+                            inv = t(rk.choice([0, 0, 1, 2]), j, rk.choice([0.02, 0.05, 0.15, 0.3]))
+                            accepted.append(str(inv.invocation_id))
+                    else:
+                        for j in range(n_jobs + 1):
+                            inv = t(j % 2, j, 0.05)
+                            accepted.append(str(inv.invocation_id))
                 else:
                     t = d.task("c", "prog")
                     if kind == "par":
@@ -375,6 +387,9 @@ def run(seed: int, params: dict, replay: dict | None = None) -> dict:
                     st["probe.popped_not_claimed_at_crash"] = st.get("probe.popped_not_claimed_at_crash", 0) + 1
                 elif s in ("KILLED", "CONCURRENCY_CONTROLLED", "PENDING_RECOVERY", "RUNNING_RECOVERY"):
                     cls = "status-written-not-requeued"
+                    if crashed and evs and dead["runner_id"] and evs[-1]["requester"] != dead["runner_id"]:
+                        # the status was written by a process that is still alive: not the crash window
+                        cls = "status-written-by-live-process-not-requeued"
                     st["probe.status_written_not_requeued_at_crash"] = st.get("probe.status_written_not_requeued_at_crash", 0) + 1
                 elif s in ("PENDING", "RUNNING") and dead_owner and blocked_service[s]:
                     cls = "recovery-task-held-by-dead-runner-blocks-recovery"
